@@ -95,6 +95,32 @@ def rand_sorted(rng, n, maxv):
 	return sorted(s)
 
 
+BOUNDARY = [255, 256, 32767, 32768, 65535, 65536, 65537, 2 ** 31 - 1, 2 ** 31, 2 ** 32 - 1, 2 ** 32, 2 ** 32 + 1, 2 ** 63 - 1, 2 ** 63, 2 ** 64 - 1]
+
+
+def fit_dtype(rng, vals):
+	"""a dtype (any of the six) able to hold the values; wider ones allowed"""
+	m = max(vals) if vals else 0
+	ok = [d for d in DTYPES if MAXV[d] >= m]
+	return rng.choice(ok)
+
+
+def gen_pair_wide(rng, maxn=40):
+	"""like gen_pair but over the whole range of the integer types, each side in its own type, with type-boundary values injected"""
+	a, b = gen_pair(rng, maxn)
+	r = rng.random()
+	if r < 0.5:
+		shift = rng.choice([0, 2 ** 16 - 20, 2 ** 32 - 20, 2 ** 63 - 50, 65500])
+		a = [x % 40 + shift for x in a]; b = [x % 40 + shift for x in b]
+		a, b = sorted(set(a)), sorted(set(b))
+	for side in (a, b):
+		if rng.random() < 0.4:
+			side.append(rng.choice(BOUNDARY))
+	if rng.random() < 0.3:
+		v = rng.choice(BOUNDARY); a.append(v); b.append(v)
+	return sorted(set(a)), sorted(set(b))
+
+
 def gen_pair(rng, maxn=60):
 	"""Structured pair over a universe chosen to produce all overlap patterns."""
 	r = rng.random()
@@ -165,6 +191,12 @@ def run(ctx):
 		a, b = gen_pair(rng, 60 if rng.random() < 0.9 else ctx.q(800, 5000))
 		da, db = rng.choice(DTYPES), rng.choice(DTYPES)
 		sub({'kind': 'pair', 'a': a, 'b': b, 'da': da, 'db': db}, 'random-pair')
+	# each side in its own integer type over that type's whole range (mixed widths where the values do NOT fit the narrower type)
+	for j in range(ctx.q(1500, 30000)):
+		if not ctx.time_left(0.78):
+			break
+		a, b = gen_pair_wide(rng)
+		sub({'kind': 'pair', 'a': a, 'b': b, 'da': fit_dtype(rng, a), 'db': fit_dtype(rng, b)}, 'wide-pair')
 	# size-only random (large sets, cheap for the driver)
 	for j in range(ctx.q(60, 1500)):
 		if not ctx.time_left(0.8):
